@@ -814,6 +814,8 @@ def op_create(w, i, op, V, M, cnt):
             sp.loader.exec_module(data)
         else:
             data = path_src
+    if op.get("badtype") and b.same_file(slot, op["path"]):
+        return "skip"                 # only meaningful at a file nobody shares yet
     if "data" in op:
         V.taint("second spec for one value")
     if BK.norm(op["path"]) != op["path"]:
@@ -830,7 +832,8 @@ def op_create(w, i, op, V, M, cnt):
     okind = BK.owner_kind(op["owner"])
     try:
         if pandas_kind:
-            ret = owner.new_pandas(op["name"], w.real(op["path"]), data, file_type=ft, sheet=sheet)
+            ret = owner.new_pandas(op["name"], w.real(op["path"]), data,
+                                   file_type="parquet" if op.get("badtype") else ft, sheet=sheet)
         else:
             ret = owner.new_module(op["name"], w.real(op["path"]), data)
     except Exception as e:      # noqa
@@ -863,6 +866,8 @@ def op_create(w, i, op, V, M, cnt):
                         short="a rejected creation changed the manager's shared files (%s)" % reason)
         if "data" in op:
             cnt["unspecified_outcomes"] += 1     # whether a second spec for one value is allowed is left open
+        elif op.get("badtype"):
+            cnt["rejected_by_io_layer"] = cnt.get("rejected_by_io_layer", 0) + 1
         elif fresh_name and clash is None and not V.any():
             if was_freed:
                 V("location", "a file location stays claimed after its spec ended", exc=type(e).__name__,
@@ -872,6 +877,8 @@ def op_create(w, i, op, V, M, cnt):
                   exc=type(e).__name__, msg=str(e)[:200], path=op["path"], sheet=sheet)
         return "rej"
     # ---- accepted
+    if op.get("badtype"):
+        raise Inconclusive("a file type taken to be unsupported was accepted")
     cnt["accepted_creations"] += 1
     if clash is None and fresh_name:
         cnt["free_location_creations"] += 1
